@@ -398,6 +398,7 @@ type ruleData struct {
 	action action
 
 	allSyscalls bool
+	explicitAll bool // "all" was given as a syscall.
 	syscalls    []uint32
 
 	fields     []field
@@ -558,9 +559,10 @@ func (r *ruleData) getAction() (string, error) {
 func addSyscall(rule *ruleData, syscall string) error {
 	if syscall == "all" {
 		rule.allSyscalls = true
+		rule.explicitAll = true
 		return nil
 	}
-	rule.allSyscalls = false
+	rule.allSyscalls = rule.explicitAll
 
 	syscallNum, err := strconv.Atoi(syscall)
 	if err != nil {
